@@ -401,10 +401,32 @@ def default_path_rule(ctx, repo):
     ctx.floor("history classes with a save/load pair", n, 3)
 
 
+def saved_dtype_rule(ctx, repo):
+    """C13.flow (dtype clause): the precision written with a flow is the precision the flow *has* (self.dtype), also when it was built with dtype=None:
+    a None in the file is resolved by the loading process from its own default dtype, so the reloaded flow's precision is not a property of the file."""
+    n = 0
+    for mod_ in ("aspire.flows.torch.flows", "aspire.flows.jax.flows"):
+        for c in repo.modules[mod_].classes.values():
+            sv = c.methods.get("save")
+            if sv is None or not sv.params:
+                continue
+            writes_dtype = any(isinstance(x, ast.Constant) and x.value == "dtype" for x in ast.walk(sv.node))
+            if not writes_dtype:
+                continue
+            n += 1
+            me = sv.params[0]
+            own = any(isinstance(x, ast.Attribute) and x.attr == "dtype" and isinstance(x.value, ast.Name) and x.value.id == me for x in ast.walk(sv.node))
+            ctx.decide(own, "C13.flow", sv.ident, loc_of(sv), f"{c.name}.save writes the flow's effective dtype",
+                       f"{c.name}.save writes the configured dtype only (self.dtype is never consulted): a flow built with dtype=None stores None, and load() resolves that from the loading "
+                       "process's default dtype -- weights are silently cast and a bounded data transform stored in the original precision no longer matches", disc=f"saved-dtype|{c.name}")
+    ctx.floor("flow classes that store a dtype", n, 1)
+
+
 def run(ctx):
     repo = ctx.repo
     um = repo.module(U)
     dataset_options_rule(ctx, repo)
+    saved_dtype_rule(ctx, repo)
     default_path_rule(ctx, repo)
     empty_sequence_rule(ctx, repo)
     # ---- what a file holds under /aspire_config is one configuration: the writer removes the group before it writes (the layout is flattened,
@@ -859,6 +881,9 @@ MUTANTS += [
 ]
 MUTANTS += [
     M("the NumPy copy used for saving is memoised on the set", _S, "def to_numpy(self, dtype: Any | str | None = None):", "def to_numpy(self, dtype: Any | str | None = None):\n        if self.__dict__.get(\"_np\") is not None:\n            return self.__dict__.get(\"_np\")", "C13np.fresh"),
+]
+MUTANTS += [
+    M("torch flow stores the configured dtype only", _TF, "if dtype_value is None:\n            dtype_value = self.dtype\n        else:\n            dtype_value = resolve_dtype(dtype_value, torch)", "dtype_value = resolve_dtype(dtype_value, torch)", "C13.flow"),
 ]
 NEUTRALS = [
     M("arrays with at least one axis written gzip-compressed", "src/aspire/utils.py", "g.create_dataset(full_key, data=encode_for_hdf5(value))",
